@@ -536,7 +536,13 @@ def render_operand(rng, conf, op, labels, sp=None):
         if op.get('val') is None:
             return decorate('[' + sp() + conf['register'] + sp() + ']')
         v = op['val']
-        if v < 0:
+        if rng.random() < 0.3:
+            # several terms behind the register: [r - a + b] is r + (-a + b), [r - a - b] is r + (-a - b)
+            a_ = rng.randrange(1, 9)
+            b_ = v + a_
+            inner = conf['register'] + sp() + '-' + sp() + str(a_) + sp() + ('+' if b_ >= 0 else '-') + sp() + \
+                rng.choice([str(abs(b_)), '$' + format(abs(b_), 'x')])
+        elif v < 0:
             inner = conf['register'] + sp() + '-' + sp() + render_value(rng, -v, None)
         else:
             inner = conf['register'] + sp() + '+' + sp() + render_value(rng, v, labels)
@@ -548,6 +554,7 @@ def render_operand(rng, conf, op, labels, sp=None):
         else:
             it = render_value(rng, op['index']['val'], labels, simple_chars=True)
         inner = conf['register'] + sp() + '+' + sp() + it
+        # (an index is only ever added: "r - x" is not an indexed register form)
         if t == 'indexed_register':
             return inner
         return decorate('[' + sp() + inner + sp() + ']')
